@@ -23,11 +23,14 @@
              "a fixed 32-byte hash built from an in-order selection plus 0-3 mutations: bit-flipped / truncated / all-zero "
              "signature, swapped order, repeated signature, signer outside the list) executed by vm.CheckMultisigPar under the "
              "release order of the tape, plus (Enum>0: quick 64, thorough 256 or 4096) every release order of that input; "
-             "inputs stay inside the interop's preconditions (1 <= len(sigs) <= len(pkeys), well-formed keys); a run is "
+             "one key in twelve is malformed (33 bytes naming no curve point; the in-order matcher faults when, and only when, it gets "
+             "to it: the expected answer is true, false or FAULT); inputs stay inside the interop's preconditions "
+             "(1 <= len(sigs) <= len(pkeys)); a run is "
              "non-trivial when a probe fired; distinct = distinct hash of input + release/arrival log"),
     "probes": ["result_true", "result_false", "false_by_order_only", "reordered_arrival", "result_unconsumed_at_return",
                "repeated_keys", "repeated_sig", "invalid_sig", "foreign_signer", "m_less_than_n", "single_sig_path",
-               "key_and_its_mirror_image_in_list", "uncompressed_key_in_list",
+               "key_and_its_mirror_image_in_list", "uncompressed_key_in_list", "malformed_key_in_list",
+               "malformed_key_not_reached_by_in_order_matcher", "result_fault_malformed_key_reached",
                "results_arrived", "scheduling_decisions", "schedules_enumerated", "enum_complete", "enum_truncated"],
     "components": {"real": ["pkg/vm.CheckMultisigPar with its 3 worker goroutines and channels",
                             "pkg/crypto/keys (key decoding, RFC6979 signing, ECDSA verification)"],
@@ -37,5 +40,5 @@
                     "which idle workers pick tasks from the task channel is not controlled (workers are identical)",
                     "hang = nothing parked, nothing runnable and the call has not returned; leak = synctest reports blocked "
                     "goroutines at bubble end (workers released by the driver after the call returned are not leaks)",
-                    "signatures of wrong length are allowed (pre-Gorgon behaviour of the interop); malformed keys are not generated"],
+                    "signatures of wrong length are allowed (pre-Gorgon behaviour of the interop); a panic on the caller's goroutine is the script's FAULT, a panic on a worker goroutine ends the process (crash)"],
 }
